@@ -399,6 +399,8 @@ inductive Act
   | quit (prov : Bool)                  -- main loop observes quit and returns
   | restart (prov : Bool)               -- process (re)start from the persisted ticket
   | recvErr (prov : Bool)               -- RecvSidecarPkt fails; back-off, re-init mailbox
+  | cancelRPC (prov : Bool)             -- the user's `CancelSidecar` RPC on that node (atomic)
+  | completeRPC (prov : Bool)           -- the batch with the sidecar channel was finalized on that node (atomic)
 deriving DecidableEq, Repr
 
 /-- next packet of a party's main loop: an unfinished stateUpdateLoop continues first -/
@@ -456,6 +458,39 @@ def applyG (ret : Bool) (s : Sys) : Act → Option Sys
   | .recvErr prov =>
     let x := getParty s prov
     if x.alive then some { s with log := (prov, .initMailbox) :: s.log } else none
+  -- `rpcServer.CancelSidecar`: picks the stored non-terminal ticket; for an ordered-or-later ticket it first
+  -- cancels the bid (`CancelOrder`: the order must be in the local order store - on the recipient's node it is not,
+  -- so the RPC fails there), which persists "canceled" and notifies the negotiator (`setTicketStateForOrder` →
+  -- `FinalizeTicket` → `TicketExecuted(canceled,false)`); otherwise it notifies the negotiator directly; finally it
+  -- writes its own copy of the ticket as canceled.
+  | .cancelRPC prov =>
+    let x := getParty s prov
+    let t := x.store
+    if s.panicked || isTerminal t.state || x.loopPkt.isSome then none else
+    if decide (sOrdered ≤ t.state) && t.order.isSome && !(prov && s.bidStored) then none else
+    let t6 := { t with state := sCanceled }
+    if x.alive && x.quit then none else      -- the daemon is shutting down: no RPC is served
+    if x.alive then
+      match finStep ret prov x sCanceled false with
+      | (none, _) => some { s with panicked := true }
+      | (some x', es) =>
+        let s1 := applyEffs prov (setParty s prov x') es
+        some (setParty s1 prov { getParty s1 prov with store := t6 })
+    else some (setParty s prov { x with store := t6 })
+  -- batch finalization: the provider's `setTicketStateForOrder(completed)` / the recipient's `matchFinalize`
+  -- persist "completed" and then notify the negotiator, whose finalization branch persists its local ticket
+  | .completeRPC prov =>
+    let x := getParty s prov
+    let t := x.store
+    if s.panicked || isTerminal t.state || x.loopPkt.isSome then none else
+    if !((prov && s.bidStored) || (!prov && s.pending.isSome)) then none else
+    let t5 := { t with state := sCompleted }
+    if x.alive && x.quit then none else
+    if x.alive then
+      match finStep ret prov x sCompleted false with
+      | (none, _) => some { s with panicked := true }
+      | (some x', es) => some (applyEffs prov (setParty s prov x') es)
+    else some (setParty s prov { x with store := t5 })
 
 /-- the transition function of the code as it is now -/
 def apply (s : Sys) (a : Act) : Option Sys := applyG finReturns s a
